@@ -1,0 +1,46 @@
+//go:build verif
+
+package dastard
+
+// Verification hooks for the edge-multi trigger check (C08): accessors only.
+
+// VerifEMTTriggerState builds the TriggerState that the RPC call ConfigureTriggers would hand to
+// ChangeTriggerState for an edge-multi request: the exported backward-compatible fields are
+// converted with the real toEMTState, exactly as SourceControl.ConfigureTriggers does.
+// mode: 0 = two full-length records (contaminated), 1 = variable length (short), 2 = full length isolated.
+func VerifEMTTriggerState(level int32, nmonotone int, mode int, zeroThreshold bool) (TriggerState, error) {
+	ts := TriggerState{EdgeMulti: true}
+	ts.EMTBackwardCompatibleRPCFields = EMTBackwardCompatibleRPCFields{
+		EdgeMultiMakeContaminatedRecords: mode == 0,
+		EdgeMultiMakeShortRecords:        mode == 1,
+		EdgeMultiDisableZeroThreshold:    !zeroThreshold,
+		EdgeMultiLevel:                   level,
+		EdgeMultiVerifyNMonotone:         nmonotone,
+	}
+	st, err := ts.EMTBackwardCompatibleRPCFields.toEMTState()
+	if err != nil {
+		return ts, err
+	}
+	ts.EMTState = st
+	return ts, nil
+}
+
+// VerifZeroThreshold calls the real kink-model refinement at index i of raw (reads raw[i-4..i+3])
+// and returns the refined index.
+func VerifZeroThreshold(raw []uint16, i int) int {
+	r := make([]RawType, len(raw))
+	for k, v := range raw {
+		r[k] = RawType(v)
+	}
+	return int(zeroThreshold(r, int32(i), true))
+}
+
+// VerifEMTInfo exposes the edge-multi search state of a processor (diagnostics and evidence tags).
+func (dsp *DataStreamProcessor) VerifEMTInfo() (mode int, threshold, nmonotone, npre, nsamp int32, zeroThr bool, next, t, u, v int64) {
+	s := dsp.EMTState
+	return int(s.mode), s.threshold, s.nmonotone, s.npre, s.nsamp, s.enableZeroThreshold,
+		int64(s.nextFrameIndexToInspect), int64(s.t), int64(s.u), int64(s.v)
+}
+
+// VerifStreamSigned reports whether the retained stream is interpreted as signed.
+func (dsp *DataStreamProcessor) VerifStreamSigned() bool { return dsp.stream.signed }
